@@ -15,6 +15,7 @@ import CpModel.SessionStore
                         hop = r | w.<k>.<v> | k.<k> | c | g | d | x | L | E
                             | A.get.<k> | A.in.<k> | A.sd.<k>.<v> | A.up.<k>.<v>[.<k>.<v>…] | A.pop.<k> | A.del.<k>
     o/<cookieA>/<preA>/<postA>/<cookieB>/<hopsB>    two overlapping requests (`overlap`)
+    z/<cookie>/<pre>/<post>    a sweep running while the request is inside its handler (`sweepDuring`)
     a<d>   s | s<id>,<id>,… (listing order of the files)   t<id>.<eof|unp|oth>
   Output: one item per op joined by `;`, item = `<out>@<listing>`,
     out     = R:<resp>  |  O:<respA>|<respB>  |  done  |  aborted
@@ -90,6 +91,8 @@ def parseSweepOrder (s : String) : Option (List Nat) :=
 inductive DOp where
   | op (o : Op)
   | overlap (cA : Cookie) (preA postA : List HOp) (cB : Cookie) (hopsB : List HOp)
+  /-- a sweep that runs while the request is inside its handler (`sweepDuring`) -/
+  | reqSweep (c : Cookie) (pre post : List HOp)
 
 def parseOp (name : Nat) (s : String) : Option DOp :=
   if s == "s" || (s.startsWith "s" && (parseSweepOrder s).isSome) then some (.op .sweep)
@@ -100,6 +103,7 @@ def parseOp (name : Nat) (s : String) : Option DOp :=
     | _ => none
   else match s.splitOn "/" with
     | ["q", c, hs] => do pure (.op (.req (← parseCookie name c) (← parseHops hs)))
+    | ["z", c, pre, post] => do pure (.reqSweep (← parseCookie name c) (← parseHops pre) (← parseHops post))
     | ["o", ca, pre, post, cb, hb] => do
       pure (.overlap (← parseCookie name ca) (← parseHops pre) (← parseHops post)
                      (← parseCookie name cb) (← parseHops hb))
@@ -191,6 +195,9 @@ def runShow (cfg : Cfg) (mem : Bool) : St → List (DOp × List Nat) → List St
         | _, .sweepAborted => "aborted"
         | _, _ => "done"
       (out ++ "@" ++ showListing (view r.1)) :: runShow cfg mem r.1 os
+    | .reqSweep c pre post =>
+      let r := sweepDuring cfg st c pre post
+      ("R:" ++ showResp cfg st c r.2.1 r.2.2 ++ "@" ++ showListing (view r.1)) :: runShow cfg mem r.1 os
     | .overlap cA preA postA cB hopsB =>
       let r := overlap cfg st cA preA postA cB hopsB
       let fins := overlapS cfg st cA preA postA cB hopsB
